@@ -599,7 +599,7 @@ func paramWrites(prog *Prog, fn *ssa.Function, idx int, depth int) []paramWrite 
 		return []paramWrite{{all: true}}
 	}
 	par := fn.Params[idx]
-	ff := computeFacts(fn)
+	var ff *FuncFacts // computed lazily: only a store of a fresh map/slice needs the nil-guard facts
 	var out []paramWrite
 	for _, b := range fn.Blocks {
 		for _, in := range b.Instrs {
@@ -612,6 +612,9 @@ func paramWrites(prog *Prog, fn *ssa.Function, idx int, depth int) []paramWrite 
 				w := paramWrite{path: p, val: x.Val, in: x}
 				switch x.Val.(type) {
 				case *ssa.MakeMap, *ssa.MakeSlice:
+					if ff == nil {
+						ff = computeFacts(fn)
+					}
 					addrKey := ff.K.key(x.Addr)
 					if ff.Holds(b, true, func(v ssa.Value, _ string) bool {
 						return isNilCompareOf(v, func(y ssa.Value) bool {
